@@ -131,7 +131,12 @@ def run(ctx):
                 ctx.sample({"kind": "model script replayed on the real %s" % kind, "script": behs[len(behs) // 2]})
             # 3. code -> spec: seeded random histories (every eighth one 8x longer, plus one very long one)
             nexec, nops, nlong = K["random"][0 if q else 1]
-            ok, tr = drive(ctx, exe, kind, behs + deep, nexec, nops, nlong, "all")
+            scripts = behs + deep
+            CH = 25000                       # TLC loads a whole trace file into memory: validate big script sets in chunks
+            for c in range(0, max(len(scripts) - CH, 0), CH):
+                drive(ctx, exe, kind, scripts[c:c + CH], 0, 0, 0, "scripts%d" % (c // CH))
+            rest = scripts[(max(len(scripts) - 1, 0) // CH) * CH:]
+            ok, tr = drive(ctx, exe, kind, rest, nexec, nops, nlong, "all")
             if ok and kind in ("cabinet", "pool", "fd"):
                 last = [json.loads(x) for x in open(tr).read().splitlines()[-4:-1]]
                 ctx.sample({"kind": "recorded %s trace (last events of the long random history)" % kind, "events": last})
